@@ -64,6 +64,11 @@ def designs(tier):
     out.append({'d': 'resetchain'})
     out.append({'d': 'gatedchain'})
     out.append({'d': 'twodelay'})
+    # an FSM block that reads the serializer's ready output directly (no combinational flow control in between)
+    out.append({'d': 'uart_seq'})
+    # the clocked recorder among the sequential blocks it watches (created first / in the middle / last)
+    for pos in (0, 1, 2):
+        out.append({'d': 'wave', 'pos': pos})
     for k in (2, 3):
         out.append({'d': 'multidrv', 'k': k})
     if T:
@@ -208,6 +213,14 @@ def build(d, sub=None):
         desync = I('desync')
         ClockGenerationAndRecovery(hw, 'ck', tx, desync, pulse, sample, 2 * d['n'], 1)
         UARTSerializer(hw, 'ser', ready, valid, v, pulse, tx)
+    elif k == 'uart_seq':
+        from py4hw.logic.protocol.uart.serdes import UARTSerializer
+        from py4hw.logic.protocol.uart.sequencer import MsgSequencer
+        ready, valid, v, tx = hw.wire('ready'), hw.wire('valid'), hw.wire('v', 8), hw.wire('tx')
+        pulse = I('pulse')
+        UARTSerializer(hw, 'ser', ready, valid, v, pulse, tx)
+        MsgSequencer(hw, 'msg', ready, valid, v, 'aZ')
+        py4hw.Reg(hw, 'rtx', tx, hw.wire('qtx'))
     elif k == 'resetchain':
         # registers with individual reset / enable ports feeding plain registers (and vice versa), 2-bit data
         x, r0, r2, e1 = I('x', 2), I('rst0'), I('rst2'), I('e1')
@@ -473,6 +486,68 @@ def explore_design(d, sub, res):
         res['samples'].append({'design': desc, 'visit_orders': len(P), 'input_sequence': ex.sample_traces[-1]})
 
 
+def _wave_run(d, xs, perm, split=None):
+    """chain of two registers + a Waveform over their outputs and the input; fresh system, fixed visit order"""
+    hw = py4hw.HWSystem()
+    x, q0, q1 = hw.wire('x'), hw.wire('q0'), hw.wire('q1')
+    made = 0
+    wf = None
+    for i in range(3):
+        if i == d['pos']:
+            wf = py4hw.Waveform(hw, 'wf', [x, q0, q1])
+        else:
+            py4hw.Reg(hw, 'r%d' % made, x if made == 0 else q0, q0 if made == 0 else q1)
+            made += 1
+    sim = hw.getSimulator()
+    (drv, cds), = list(sim.clockDrivers.items())
+    base = list(cds.clockables)
+    if len(base) != 3:
+        raise core.HarnessError('wave design: %d clockables' % len(base))
+    cds.clockables = [base[i] for i in perm]
+    if split is None:
+        for v in xs:
+            x.put(v)
+            sim.clk(1)
+    else:
+        x.put(xs[0])
+        for m in split:
+            sim.clk(m)
+    left = list(Wire.prepared)
+    core.reset_prepared()
+    return {'wires': [q0.get(), q1.get()], 'samples': [list(wf.data.get(w, [])) for w in (x, q0, q1)], 'prepared_left': len(left)}
+
+
+def run_wave(d, res):
+    L = 4
+    perms3 = list(itertools.permutations(range(3)))
+    for n in range(1, L + 1):
+        for xs in itertools.product((0, 1), repeat=n):
+            ref = _wave_run(d, xs, perms3[0])
+            res['_outcomes'].add(repr(ref))
+            res['transitions'] += 1
+            for p in perms3[1:]:
+                got = _wave_run(d, xs, p)
+                res['evaluations'] += 1
+                if got != ref and not any(v['sig'] == 'C05:order_dependent:wave' for v in res['violations']):
+                    res['violations'].append({'sig': 'C05:order_dependent:wave', 'shard': dict(d), 'trace': [[v] for v in xs],
+                                              'detail': {'visit_order': list(p), 'identity_order': ref, 'permuted_order': got}})
+    # clk(n) against its splittings, recorder included
+    for n in (2, 3, 4):
+        for x0 in (0, 1):
+            ref = _wave_run(d, (x0,), perms3[0], split=(n,))
+            for comp in compositions(n):
+                got = _wave_run(d, (x0,), perms3[0], split=comp)
+                res['evaluations'] += 1
+                if got != ref and not any(v['sig'] == 'C05:clk_n_split:wave' for v in res['violations']):
+                    res['violations'].append({'sig': 'C05:clk_n_split:wave', 'shard': dict(d), 'trace': [[x0]],
+                                              'detail': {'n': n, 'split': list(comp), 'one_call': ref, 'split_calls': got}})
+    res['programs'] += 1
+    res['states'] += 2 ** (L + 1) - 2
+    res['perms'] = max(res.get('perms', 0), len(perms3))
+    if not res['samples']:
+        res['samples'].append({'design': dict(d), 'visit_orders': 6, 'input_sequences': 'all of length <= 4'})
+
+
 def cross_system(res):
     """(4) two systems stepped alternately in every interleaving of length <= 4."""
     da, db = {'d': 'swap', 'w': 1}, {'d': 'ring', 'k': 3}
@@ -524,6 +599,8 @@ def run_shard(d):
             sets = list(c04.edge_sets({'n': n, 'space': 'dag+1', 'lo': d['lo'], 'hi': d['hi']}))
         for edges in sets:
             explore_design(d, {'edges': edges}, res)
+    elif d['d'] == 'wave':
+        run_wave(d, res)
     else:
         explore_design(d, None, res)
         if d == {'d': 'swap', 'w': 1}:
@@ -540,6 +617,11 @@ def replay(v):
         res = {'evaluations': 0, 'violations': []}
         cross_system(res)
         return {'violates': bool(res['violations']), 'detail': res['violations'][:1]}
+    if d.get('d') == 'wave':
+        res = {'evaluations': 0, 'violations': [], 'samples': [], '_outcomes': set(), 'transitions': 0, 'programs': 0, 'states': 0}
+        run_wave(d, res)
+        hit = [x for x in res['violations'] if x['sig'] == v['sig']]
+        return {'design': d, 'violates': bool(hit), 'detail': [x['detail'] for x in hit[:1]]}
     dd = {'d': d['d'], 'n': d.get('n')} if sub else d
     obs = {}
     tr = [tuple(x) for x in v['trace']]
